@@ -147,6 +147,7 @@ Eigen::Matrix<S, D, D> genRotation(vf::Ctx & c, bool & exact)
       R(0, 0) = co[q]; R(0, 1) = -si[q]; R(1, 0) = si[q]; R(1, 1) = co[q];
     } else {
       double a = c.s.r("angle", -3.141592653589793, 3.141592653589793);
+      if (c.s.flag("tiny_angle", 1, 4)) {a = (c.s.flag("tiny_angle_negative") ? -1.0 : 1.0) * std::pow(10.0, -c.s.uni("tiny_angle_exp", 2.0, 12.0));}
       R(0, 0) = static_cast<S>(std::cos(a)); R(0, 1) = static_cast<S>(-std::sin(a));
       R(1, 0) = static_cast<S>(std::sin(a)); R(1, 1) = static_cast<S>(std::cos(a));
     }
@@ -162,6 +163,11 @@ Eigen::Matrix<S, D, D> genRotation(vf::Ctx & c, bool & exact)
       R(P[perm][0], 0) = static_cast<S>(s0); R(P[perm][1], 1) = static_cast<S>(s1); R(P[perm][2], 2) = static_cast<S>(s2);
     } else {
       double qw = c.s.r("qw", -1, 1), qx = c.s.r("qx", -1, 1), qy = c.s.r("qy", -1, 1), qz = c.s.r("qz", -1, 1);
+      if (c.s.flag("tiny_angle", 1, 4)) {
+        // almost the identity: cos rounds to 1 while sin is still there
+        double sc = std::pow(10.0, -c.s.uni("tiny_angle_exp", 2.0, 12.0));
+        qw = 1; qx *= sc; qy *= sc; qz *= sc;
+      }
       double n = std::sqrt(qw * qw + qx * qx + qy * qy + qz * qz);
       if (n < 1e-3) {qw = 1; qx = qy = qz = 0; n = 1;}
       Eigen::Quaterniond q(qw / n, qx / n, qy / n, qz / n);
